@@ -701,3 +701,35 @@ impl<K: ExpiredKey<E>, E: Expiration, V: Copy> KeyExpTree<K, E, V> {
         }
     }
 }
+
+#[cfg(feature = "itree_verif")]
+impl<K: ExpiredKey<E>, E: Expiration, V: Copy> KeyExpTree<K, E, V> {
+    /// (root, per-slot (parent, left, right, is_red), free list bottom first, free list capacity)
+    pub fn verif_snapshot(&self) -> (u32, Vec<(u32, u32, u32, bool)>, Vec<u32>, usize) {
+        let nodes = self
+            .store
+            .buffer
+            .iter()
+            .map(|n| (n.parent, n.left, n.right, n.color == Color::Red))
+            .collect();
+        (self.root, nodes, self.store.unused.clone(), self.store.unused.capacity())
+    }
+
+    /// Only meaningful for slots that are part of the tree (others may hold zeroed entities).
+    pub fn verif_entity(&self, index: u32) -> (K, V) {
+        let e = &self.store.buffer[index as usize].entity;
+        (e.key, e.val)
+    }
+
+    /// Independent copy of the whole tree (`into_ordered_vec` consumes `self`).
+    pub fn verif_clone(&self) -> Self {
+        Self {
+            store: Pool {
+                buffer: self.store.buffer.clone(),
+                unused: self.store.unused.clone(),
+            },
+            root: self.root,
+            phantom_data: Default::default(),
+        }
+    }
+}
